@@ -176,8 +176,16 @@ func (p *polling) onDataRequest(ctx *types.HttpContext) {
 		packet = types.NewStringBuffer(nil)
 	}
 	if body := ctx.Request().Body; body != nil {
-		packet.ReadFrom(body)
+		// a body sent without Content-Length is bounded here: never read more than the limit plus one byte
+		n, _ := packet.ReadFrom(io.LimitReader(body, p.MaxHttpBufferSize()+1))
 		body.Close()
+		if n > p.MaxHttpBufferSize() {
+			cleanup()
+
+			ctx.SetStatusCode(http.StatusRequestEntityTooLarge)
+			ctx.Write(nil)
+			return
+		}
 	}
 	p.Proto().OnData(packet)
 
